@@ -20,7 +20,7 @@ CASE_TIMEOUT = 600
 LEVEL = {"C17": "exploration"}
 PLAN = {"C17": {
     "quick": {"runs": 64, "wall_cap": 115, "chunk": 1, "selftest": 3},
-    "thorough": {"runs": 1600, "wall_cap": 1500, "chunk": 2, "selftest": 8},
+    "thorough": {"runs": 2000, "wall_cap": 1700, "chunk": 2, "selftest": 8},
 }}
 RULE = {"C17": (
     "one evaluation = one batch of ~36 seeded cases (api, network, arguments, integer seed) covering every public "
